@@ -203,128 +203,9 @@ func rootGlobal(v ssa.Value) *ssa.Global {
 func r7const(c *core.Ctx) {
 	const R = "R7.const"
 	c.Rule(R, "snow3g: MULx, MULxPOW, MULalpha/DIValpha exponents and byte positions, S1/S2 recombination (TS 35.216 3.1-3.3)")
-	// mulx(V,c): if V&0x80 != 0 -> (V<<1)^c else V<<1
-	{
-		fn := mustFunc(c, pSnow, "mulx")
-		p := core.NewPather(fn)
-		ok := false
-		if len(fn.Blocks) >= 3 {
-			if iff, isIf := fn.Blocks[0].Instrs[len(fn.Blocks[0].Instrs)-1].(*ssa.If); isIf {
-				cond := p.Path(iff.Cond)
-				t, e := retPath(p, fn.Blocks[0].Succs[0]), retPath(p, fn.Blocks[0].Succs[1])
-				if cond == "((p0&128)!=0)" && (t == "((p0<<1)^p1)" || t == "(p1^(p0<<1))") && e == "(p0<<1)" {
-					ok = true
-				}
-				if cond == "((p0&128)==0)" && (e == "((p0<<1)^p1)" || e == "(p1^(p0<<1))") && t == "(p0<<1)" {
-					ok = true
-				}
-			}
-		}
-		c.Check(ok, R, "snow3g.mulx", fn.Pos(), "V&0x80 ? (V<<1)^c : V<<1", "MULx must be (V<<1)^c when the top bit of V is set and V<<1 otherwise")
-	}
-	{
-		fn := mustFunc(c, pSnow, "mulxPow")
-		p := core.NewPather(fn)
-		ok := false
-		if len(fn.Blocks) >= 3 {
-			if iff, isIf := fn.Blocks[0].Instrs[len(fn.Blocks[0].Instrs)-1].(*ssa.If); isIf {
-				cond := p.Path(iff.Cond)
-				t, e := retPath(p, fn.Blocks[0].Succs[0]), retPath(p, fn.Blocks[0].Succs[1])
-				rec := "call:" + pSnow + ".mulx(call:" + pSnow + ".mulxPow(p0,(p1-1),p2),p2)"
-				if cond == "(p1==0)" && t == "p0" && e == rec {
-					ok = true
-				}
-				if cond == "(p1!=0)" && e == "p0" && t == rec {
-					ok = true
-				}
-			}
-		}
-		c.Check(ok, R, "snow3g.mulxPow", fn.Pos(), "i==0 ? V : MULx(MULxPOW(V,i-1,c),c)", "MULxPOW must be the i-fold application of MULx")
-	}
-	for _, t := range []struct {
-		name string
-		exps [4]int64
-	}{{"mulAlpha", [4]int64{23, 245, 48, 239}}, {"divAlpha", [4]int64{16, 39, 6, 64}}} {
-		fn := mustFunc(c, pSnow, t.name)
-		ba := core.NewBitAnalyzer(fn)
-		v := singleReturnAny(fn)
-		if v == nil {
-			c.Fail(R, "snow3g."+t.name, fn.Pos(), "expected a single return")
-			continue
-		}
-		b := ba.Bits(v)
-		ok := b != nil && len(b) == 32
-		var want []string
-		for k := 0; k < 4 && ok; k++ {
-			src := fmt.Sprintf("call:%s.mulxPow(p0,%d,169)", pSnow, t.exps[k])
-			hi := 31 - 8*k
-			want = append(want, fmt.Sprintf("[%d:%d]=MULxPOW(c,%d,0xA9)", hi, hi-7, t.exps[k]))
-			if !b.IsCopy(hi, hi-7, src, 0) {
-				ok = false
-			}
-		}
-		c.Check(ok, R, "snow3g."+t.name, fn.Pos(), strings.Join(want, " "), "%s must be MULxPOW(c,%v,0xA9) in bytes 3..0, is %s", t.name, t.exps, b.Describe())
-	}
-	// S1 / S2
-	for _, t := range []struct {
-		name, box string
-		poly      int64
-	}{{"s1", "sr", 0x1b}, {"s2", "sq", 0x69}} {
-		fn := mustFunc(c, pSnow, t.name)
-		ba := core.NewBitAnalyzer(fn)
-		v := singleReturnAny(fn)
-		if v == nil {
-			c.Fail(R, "snow3g."+t.name, fn.Pos(), "expected a single return")
-			continue
-		}
-		b := ba.Bits(v)
-		// rename sources: S-box lookups by the byte of w they index
-		names := map[string]string{}
-		for k, idx := range []string{"((p0>>24)&255)", "((p0>>16)&255)", "((p0>>8)&255)", "(p0&255)"} {
-			s := "global:" + pSnow + "." + t.box + "[" + idx + "]"
-			names[s] = fmt.Sprintf("S%d", k)
-			names[fmt.Sprintf("call:%s.mulx(%s,%d)", pSnow, s, t.poly)] = fmt.Sprintf("M%d", k)
-		}
-		// alternative index spellings
-		for k, idx := range []string{"(p0>>24)", "", "", ""} {
-			if idx != "" {
-				s := "global:" + pSnow + "." + t.box + "[" + idx + "]"
-				names[s] = fmt.Sprintf("S%d", k)
-				names[fmt.Sprintf("call:%s.mulx(%s,%d)", pSnow, s, t.poly)] = fmt.Sprintf("M%d", k)
-			}
-		}
-		want := [4][]string{
-			{"M0", "S1", "S2", "M3", "S3"},
-			{"M0", "S0", "M1", "S2", "S3"},
-			{"S0", "M1", "S1", "M2", "S3"},
-			{"S0", "S1", "M2", "S2", "M3"},
-		}
-		ok := b != nil && len(b) == 32
-		detail := ""
-		for k := 0; k < 4 && ok; k++ {
-			hi := 31 - 8*k
-			for i := 0; i < 8; i++ {
-				got := bitTermsRenamed(b[hi-7+i], names)
-				w := map[string]bool{}
-				for _, n := range want[k] {
-					w[fmt.Sprintf("%s.%d", n, i)] = true
-				}
-				if len(got) != len(w) {
-					ok = false
-				}
-				for _, g := range got {
-					if !w[g] {
-						ok = false
-					}
-				}
-				if !ok {
-					detail = fmt.Sprintf("byte r%d bit %d is %v, want XOR of %v", k, i, got, want[k])
-					break
-				}
-			}
-		}
-		c.Check(ok, R, "snow3g."+t.name, fn.Pos(), "r0..r3 = TS 35.216 3.3 combination of "+strings.ToUpper(t.box)+"(w0..w3) and MULx(.,"+fmt.Sprintf("%#x", t.poly)+")", "%s: %s", t.name, detail)
-	}
+	r7mulx(c, R, pSnow, "snow3g.mulx", 8)
+	r7mulxPowAt(c, R, pSnow, "snow3g.mulxPow", 8, []int{23, 245, 48, 239, 16, 39, 6, 64})
+	r7constX(c)
 }
 
 func bitTermsRenamed(b core.Bit, names map[string]string) []string {
@@ -362,134 +243,7 @@ func r7lfsrfsm(c *core.Ctx) {
 	const R = "R7.lfsr"
 	c.Rule(R, "snow3g: LFSR feedback taps and shift, FSM update (TS 35.216 3.4.2-3.4.5), keystream = F xor s0 after one discarded clock")
 	S := func(i int) string { return fmt.Sprintf("global:%s.lfsr.s[%d]", pSnow, i) }
-	for _, t := range []struct {
-		name string
-		withF bool
-	}{{"lfsrInitialisationMode", true}, {"lfsrKeystreamMode", false}} {
-		fn := mustFunc(c, pSnow, t.name)
-		p := core.NewPather(fn)
-		ba := core.NewBitAnalyzer(fn)
-		// the value stored into s[15]
-		var v ssa.Value
-		shiftOK := false
-		for _, b := range fn.Blocks {
-			for _, in := range b.Instrs {
-				if st, ok := in.(*ssa.Store); ok {
-					ap := p.Path(st.Addr)
-					if ap == S(15) {
-						v = st.Val
-					}
-					if strings.HasPrefix(ap, "global:"+pSnow+".lfsr.s[iv") && p.Path(st.Val) == strings.Replace(ap, "]", "+1)]", 1)[:0]+fmt.Sprintf("global:%s.lfsr.s[(%s+1)]", pSnow, ap[strings.Index(ap, "[")+1:len(ap)-1]) {
-						shiftOK = true
-					}
-				}
-			}
-		}
-		key := "snow3g." + t.name
-		if v == nil {
-			c.Fail(R, key+":feedback", fn.Pos(), "no store to lfsr.s[15]")
-			continue
-		}
-		b := ba.Bits(v)
-		mulA := fmt.Sprintf("call:%s.mulAlpha(((%s>>24)&255))", pSnow, S(0))
-		mulA2 := fmt.Sprintf("call:%s.mulAlpha((%s>>24))", pSnow, S(0))
-		divA := fmt.Sprintf("call:%s.divAlpha((%s&255))", pSnow, S(11))
-		divA2 := fmt.Sprintf("call:%s.divAlpha(%s)", pSnow, S(11))
-		names := map[string]string{S(0): "s0", S(2): "s2", S(11): "s11", mulA: "MULa", mulA2: "MULa", divA: "DIVa", divA2: "DIVa", "p0": "F"}
-		ok := b != nil && len(b) == 32
-		detail := ""
-		for i := 0; i < 32 && ok; i++ {
-			w := map[string]bool{fmt.Sprintf("MULa.%d", i): true, fmt.Sprintf("s2.%d", i): true, fmt.Sprintf("DIVa.%d", i): true}
-			if i >= 8 {
-				w[fmt.Sprintf("s0.%d", i-8)] = true
-			}
-			if i+8 < 32 {
-				w[fmt.Sprintf("s11.%d", i+8)] = true
-			}
-			if t.withF {
-				w[fmt.Sprintf("F.%d", i)] = true
-			}
-			got := bitTermsRenamed(b[i], names)
-			if len(got) != len(w) {
-				ok = false
-			}
-			for _, g := range got {
-				if !w[g] {
-					ok = false
-				}
-			}
-			if !ok {
-				detail = fmt.Sprintf("bit %d of the new s15 is %v", i, got)
-			}
-		}
-		want := "v = (s0<<8) ^ MULa(s0>>24) ^ s2 ^ (s11>>8) ^ DIVa(s11&0xff)"
-		if t.withF {
-			want += " ^ F"
-		}
-		c.Check(ok, R, key+":feedback", fn.Pos(), want, "LFSR feedback must be %s; %s", want, detail)
-		// shift s[i] = s[i+1] for i in 0..14
-		lb := loopBounds(fn)
-		shift := false
-		for _, l := range lb {
-			if l.init == 0 && l.step == 1 && l.op == token.LSS && l.limit == 15 {
-				shift = true
-			}
-		}
-		_ = shiftOK
-		okShift := shift && storeInLoopIs(fn, p, "global:"+pSnow+".lfsr.s[iv1]", "global:"+pSnow+".lfsr.s[(iv1+1)]")
-		c.Check(okShift, R, key+":shift", fn.Pos(), "s[i] = s[i+1] for i = 0..14", "LFSR shift must move s[i+1] into s[i] for i = 0..14")
-	}
-	// clockFsm
-	{
-		fn := mustFunc(c, pSnow, "clockFsm")
-		p := core.NewPather(fn)
-		R0, R1, R2 := "global:"+pSnow+".fsm.r[0]", "global:"+pSnow+".fsm.r[1]", "global:"+pSnow+".fsm.r[2]"
-		got := map[string]string{}
-		var order []string
-		for _, b := range fn.Blocks {
-			for _, in := range b.Instrs {
-				switch x := in.(type) {
-				case *ssa.Store:
-					got[p.Path(x.Addr)] = p.Path(x.Val)
-					order = append(order, p.Path(x.Addr))
-				case *ssa.Return:
-					got["ret"] = p.Path(x.Results[0])
-				}
-			}
-		}
-		okF := commEq(got["ret"], "(("+"p0+"+R0+")^"+R1+")")
-		// because loads are rendered by address, the values below denote the registers
-		// as they were when loaded; SSA loads precede the stores in this function.
-		okR2 := got[R2] == "call:"+pSnow+".s2("+R1+")"
-		okR1 := got[R1] == "call:"+pSnow+".s1("+R0+")"
-		okR0 := commEq(got[R0], "("+R1+"+("+R2+"^p1))")
-		// loads must all happen before the first store (otherwise a register is read after being overwritten)
-		loadsBeforeStores := true
-		seenStore := false
-		for _, b := range fn.Blocks {
-			for _, in := range b.Instrs {
-				switch x := in.(type) {
-				case *ssa.Store:
-					if strings.HasPrefix(p.Path(x.Addr), "global:"+pSnow+".fsm.r[") {
-						seenStore = true
-					}
-				case *ssa.UnOp:
-					if x.Op == token.MUL && strings.HasPrefix(p.Path(x.X), "global:"+pSnow+".fsm.r[") && seenStore {
-						// a load after a store: allowed only if it reads a register not yet overwritten
-						for _, o := range order {
-							if o == p.Path(x.X) {
-								// was this register stored before this load? approximate by order of appearance
-							}
-						}
-						loadsBeforeStores = loadOK(fn, p, x)
-					}
-				}
-			}
-		}
-		ok := okF && okR0 && okR1 && okR2 && loadsBeforeStores && len(fn.Blocks) == 1
-		c.Check(ok, R, "snow3g.clockFsm", fn.Pos(), "F=(s15+R1)^R2; r=R2+(R3^s5); R3=S2(R2); R2=S1(R1); R1=r",
-			"FSM clock must be F=(s15+R1)^R2, R1'=R2+(R3^s5), R2'=S1(R1), R3'=S2(R2) with old register values; found F=%s r0'=%s r1'=%s r2'=%s", got["ret"], got[R0], got[R1], got[R2])
-	}
+	r7lfsrX(c)
 	// GenerateKeystream
 	{
 		fn := mustFunc(c, pSnow, "GenerateKeystream")
@@ -679,86 +433,8 @@ func r7init(c *core.Ctx) {
 	c.Rule(R, "snow3g.InitSnow3g: key/IV loading table of TS 35.216 3.4.1, FSM cleared, 32 initialisation clocks feeding F back")
 	c.Rule(RF, "every NEA1/NIA1 call re-initialises all 16 LFSR cells and 3 FSM registers before any of them is read (result independent of earlier calls)")
 	fn := mustFunc(c, pSnow, "InitSnow3g")
-	p := core.NewPather(fn)
-	ba := core.NewBitAnalyzer(fn)
-	type load struct {
-		k   int
-		neg bool
-		iv  int // -1 none
-	}
-	want := []load{{0, true, -1}, {1, true, -1}, {2, true, -1}, {3, true, -1}, {0, false, -1}, {1, false, -1}, {2, false, -1}, {3, false, -1},
-		{0, true, -1}, {1, true, 3}, {2, true, 2}, {3, true, -1}, {0, false, 1}, {1, false, -1}, {2, false, -1}, {3, false, 0}}
-	stored := map[int]ssa.Value{}
-	var firstUse ssa.Instruction // first call that reads the state
-	fsmCleared := map[int]bool{}
-	entry := fn.Blocks[0]
-	for _, b := range fn.Blocks {
-		for _, in := range b.Instrs {
-			switch x := in.(type) {
-			case *ssa.Store:
-				ap := p.Path(x.Addr)
-				var idx int
-				if n, _ := fmt.Sscanf(ap, "global:"+pSnow+".lfsr.s[%d]", &idx); n == 1 && b == entry && firstUse == nil {
-					stored[idx] = x.Val
-				}
-				if strings.HasPrefix(ap, "global:"+pSnow+".fsm.r[") && firstUse == nil {
-					if z, okZ := core.ConstInt(x.Val); okZ && z == 0 {
-						if n, _ := fmt.Sscanf(ap, "global:"+pSnow+".fsm.r[%d]", &idx); n == 1 {
-							fsmCleared[idx] = true
-						} else if strings.Contains(ap, "fsm.r[iv") {
-							for _, l := range loopBounds(fn) {
-								if l.initOK && l.init == 0 && l.step == 1 && l.op == token.LSS && l.limitOK && p.Path(l.phi) == ap[strings.Index(ap, "[iv")+1:len(ap)-1] {
-									for k := 0; k < int(l.limit) && k < 3; k++ {
-										fsmCleared[k] = true
-									}
-								}
-							}
-						}
-					}
-				}
-			case *ssa.Call:
-				n := core.CalleeName(&x.Call)
-				if firstUse == nil && (n == pSnow+".clockFsm" || strings.HasPrefix(n, pSnow+".lfsr")) {
-					firstUse = x
-				}
-			}
-		}
-	}
-	for i, w := range want {
-		key := fmt.Sprintf("snow3g.InitSnow3g:s%d", i)
-		v, ok := stored[i]
-		if !ok {
-			c.Fail(R, key, fn.Pos(), "lfsr.s[%d] is not assigned before the first clock", i)
-			continue
-		}
-		b := ba.Bits(v)
-		srcs := []core.SrcRef{{Path: fmt.Sprintf("p0[%d]", w.k)}}
-		desc := fmt.Sprintf("k%d", w.k)
-		if w.neg {
-			desc += "^1s"
-		}
-		if w.iv >= 0 {
-			srcs = append(srcs, core.SrcRef{Path: fmt.Sprintf("p1[%d]", w.iv)})
-			desc += fmt.Sprintf("^IV%d", w.iv)
-		}
-		c.Check(b != nil && len(b) == 32 && b.IsXorOf(31, 0, w.neg, srcs...), R, key, v.Pos(), desc, "s%d must be %s (TS 35.216 3.4.1), is %s", i, desc, b.Describe())
-	}
-	c.Check(len(stored) == 16, RF, "snow3g.InitSnow3g:lfsr-all-cells", fn.Pos(), "16/16 cells written before the first clock", "only %d of 16 LFSR cells are written before the first clock", len(stored))
-	c.Check(fsmCleared[0] && fsmCleared[1] && fsmCleared[2], RF, "snow3g.InitSnow3g:fsm-cleared", fn.Pos(), "R1,R2,R3 := 0 before the first clock", "the FSM registers are not all cleared before the first clock (cleared: %v)", fsmCleared)
-	// 32 clocks: loop with bound 32 containing F := clockFsm(s15,s5); lfsrInitialisationMode(F)
-	ok32 := false
-	for _, l := range loopBounds(fn) {
-		if l.initOK && l.init == 0 && l.step == 1 && l.op == token.LSS && l.limitOK && l.limit == 32 {
-			ok32 = true
-		}
-	}
-	fb := false
-	for _, ci := range core.CallsTo(fn, pSnow+".lfsrInitialisationMode") {
-		if p.Path(ci.Common().Args[0]) == fmt.Sprintf("call:%s.clockFsm(global:%s.lfsr.s[15],global:%s.lfsr.s[5])", pSnow, pSnow, pSnow) {
-			fb = true
-		}
-	}
-	c.Check(ok32 && fb, R, "snow3g.InitSnow3g:32-clocks", fn.Pos(), "32 x { F = clockFsm(s15,s5); lfsrInitialisationMode(F) }", "initialisation must clock the FSM 32 times feeding F into the LFSR")
+	_ = fn
+	r7initX(c)
 	// NEA1 / NIA1: InitSnow3g dominates GenerateKeystream
 	for _, name := range []string{"NEA1", "NIA1"} {
 		f := mustFunc(c, pSec, name)
@@ -802,52 +478,12 @@ func r7init(c *core.Ctx) {
 func r7iv(c *core.Ctx) {
 	const R = "R7.iv"
 	c.Rule(R, "IV / counter block layouts of NEA1, NIA1, NEA2, NIA2; BEARER/DIRECTION range guards; key word order")
-	// guards in NASEncrypt / NASMacCalculate
-	for _, name := range []string{"NASEncrypt", "NASMacCalculate"} {
-		fn := mustFunc(c, pSec, name)
-		p := core.NewPather(fn)
-		gB, gD := false, false
-		for _, b := range fn.Blocks {
-			iff, ok := b.Instrs[len(b.Instrs)-1].(*ssa.If)
-			if !ok {
-				continue
-			}
-			cond := p.Path(iff.Cond)
-			retErr := blockReturnsError(b.Succs[0])
-			// every crypto call must be dominated by the false edge
-			if cond == "(p3>31)" && retErr && dominatesAllCryptoCalls(fn, b.Succs[1]) {
-				gB = true
-			}
-			if cond == "(p4>1)" && retErr && dominatesAllCryptoCalls(fn, b.Succs[1]) {
-				gD = true
-			}
-		}
-		c.Check(gB, R, "security."+name+":bearer-guard", fn.Pos(), "Bearer > 31 refused before any algorithm runs", "no guard refusing BEARER values above 5 bits before the algorithms (the IV layout needs BEARER < 32)")
-		c.Check(gD, R, "security."+name+":direction-guard", fn.Pos(), "Direction > 1 refused before any algorithm runs", "no guard refusing DIRECTION values above 1 bit before the algorithms")
-	}
-	assume := map[string]int{"p2": 5, "p3": 1}
-	// NEA1
+	r7guardsX(c, R)
+	r7ivSnow(c, R)
+	r7ivAes(c, R)
+	// NEA1: keystream length and application
 	{
 		fn := mustFunc(c, pSec, "NEA1")
-		ba := core.NewBitAnalyzer(fn)
-		ba.Assume = assume
-		call := onlyCall(c, R, fn, pSnow+".InitSnow3g")
-		if call != nil {
-			iv := arrayArgElems(call.Call.Args[1])
-			if iv == nil || len(iv) != 4 {
-				c.Fail(R, "security.NEA1:iv", call.Pos(), "IV argument is not a 4-word array literal")
-			} else {
-				bd := func(b core.BitVec) bool {
-					return b != nil && len(b) == 32 && b.IsCopy(31, 27, "p2", 0) && b.IsCopy(26, 26, "p3", 0) && b.IsConst(25, 0, 0)
-				}
-				cnt := func(b core.BitVec) bool { return b != nil && len(b) == 32 && b.IsCopy(31, 0, "p1", 0) }
-				b0, b1, b2, b3 := ba.Bits(iv[0]), ba.Bits(iv[1]), ba.Bits(iv[2]), ba.Bits(iv[3])
-				c.Check(bd(b0) && cnt(b1) && bd(b2) && cnt(b3), R, "security.NEA1:iv", call.Pos(), "IV = {BEARER<<27|DIR<<26, COUNT, BEARER<<27|DIR<<26, COUNT}",
-					"128-EEA1 IV must be {BEARER||DIR||0^26, COUNT, BEARER||DIR||0^26, COUNT}; is {%s ; %s ; %s ; %s}", b0.Describe(), b1.Describe(), b2.Describe(), b3.Describe())
-			}
-			r7keywords(c, R, fn, "NEA1", call)
-		}
-		// keystream length: l = (length+31)/32 words requested and generated
 		p := core.NewPather(fn)
 		gk := onlyCall(c, R, fn, pSnow+".GenerateKeystream")
 		if gk != nil {
@@ -859,24 +495,6 @@ func r7iv(c *core.Ctx) {
 	// NIA1
 	{
 		fn := mustFunc(c, pSec, "NIA1")
-		ba := core.NewBitAnalyzer(fn)
-		ba.Assume = map[string]int{"p2": 5, "p3": 1}
-		call := onlyCall(c, R, fn, pSnow+".InitSnow3g")
-		if call != nil {
-			iv := arrayArgElems(call.Call.Args[1])
-			if iv == nil || len(iv) != 4 {
-				c.Fail(R, "security.NIA1:iv", call.Pos(), "IV argument is not a 4-word array literal")
-			} else {
-				b0, b1, b2, b3 := ba.Bits(iv[0]), ba.Bits(iv[1]), ba.Bits(iv[2]), ba.Bits(iv[3])
-				ok0 := b0 != nil && b0.IsCopy(31, 27, "p2", 0) && b0.IsConst(26, 16, 0) && b0.IsCopy(15, 15, "p3", 0) && b0.IsConst(14, 0, 0)
-				ok1 := b1 != nil && b1.IsXorOf(31, 31, false, core.SrcRef{Path: "p1", Lo: 31}, core.SrcRef{Path: "p3", Lo: 0}) && b1.IsCopy(30, 0, "p1", 0)
-				ok2 := b2 != nil && b2.IsCopy(31, 27, "p2", 0) && b2.IsConst(26, 0, 0)
-				ok3 := b3 != nil && b3.IsCopy(31, 0, "p1", 0)
-				c.Check(ok0 && ok1 && ok2 && ok3, R, "security.NIA1:iv", call.Pos(), "IV = {FRESH^DIR<<15, COUNT^DIR<<31, FRESH, COUNT}, FRESH = BEARER<<27",
-					"128-EIA1 IV must be {FRESH^DIR<<15, COUNT^DIR<<31, FRESH, COUNT} with FRESH=BEARER<<27; is {%s ; %s ; %s ; %s}", b0.Describe(), b1.Describe(), b2.Describe(), b3.Describe())
-			}
-			r7keywords(c, R, fn, "NIA1", call)
-		}
 		p := core.NewPather(fn)
 		gk := onlyCall(c, R, fn, pSnow+".GenerateKeystream")
 		if gk != nil {
@@ -885,83 +503,20 @@ func r7iv(c *core.Ctx) {
 		}
 		r7nia1eval(c, R, fn)
 	}
-	// NEA2 / NIA2 counter block
-	for _, name := range []string{"NEA2", "NIA2"} {
-		fn := mustFunc(c, pSec, name)
+	// NEA2: the keystream covers the whole message
+	{
+		fn := mustFunc(c, pSec, "NEA2")
 		p := core.NewPather(fn)
-		ba := core.NewBitAnalyzer(fn)
-		ba.Assume = map[string]int{"p2": 5, "p3": 1}
-		put := onlyCall(c, R, fn, "encoding/binary.bigEndian.PutUint32")
-		var blk string
-		if put != nil {
-			blk = p.Path(put.Call.Args[1])
-			v := p.Path(put.Call.Args[2])
-			c.Check(v == "p1", R, "security."+name+":count-octets", put.Pos(), "octets 0..3 = COUNT big-endian", "octets 0..3 of the block must be COUNT (big-endian), value written is %s", v)
-		}
-		// store to blk[4]
-		var st4 *ssa.Store
-		others := 0
-		for _, b := range fn.Blocks {
-			for _, in := range b.Instrs {
-				if st, ok := in.(*ssa.Store); ok && blk != "" {
-					ap := p.Path(st.Addr)
-					if ap == blk+"[4]" {
-						st4 = st
-					} else if strings.HasPrefix(ap, blk+"[") {
-						others++
-					}
+		xor := false
+		for _, ci := range core.Calls(fn) {
+			if core.CalleeName(ci.Common()) == "invoke:(crypto/cipher.Stream).XORKeyStream" {
+				a := ci.Common().Args
+				if p.Path(a[1]) == "p4" && p.Path(a[0]) == "makeslice(call:builtin.len(p4))" && retIs(fn, p, p.Path(a[0])) {
+					xor = true
 				}
 			}
 		}
-		if st4 == nil {
-			c.Fail(R, "security."+name+":bearer-direction-octet", fn.Pos(), "octet 4 of the block (BEARER||DIRECTION||0) is never written")
-		} else {
-			b := ba.Bits(st4.Val)
-			ok := b != nil && len(b) == 8 && b.IsCopy(7, 3, "p2", 0) && b.IsCopy(2, 2, "p3", 0) && b.IsConst(1, 0, 0)
-			c.Check(ok && others == 0, R, "security."+name+":bearer-direction-octet", st4.Pos(), "octet 4 = BEARER<<3 | DIRECTION<<2", "octet 4 must be BEARER(5)||DIRECTION(1)||00, is %s (other literal stores into the block: %d)", b.Describe(), others)
-		}
-		if name == "NEA2" {
-			ctr := onlyCall(c, R, fn, "crypto/cipher.NewCTR")
-			okCtr := ctr != nil && p.Path(ctr.Call.Args[1]) == blk && strings.HasPrefix(p.Path(ctr.Call.Args[0]), "call:crypto/aes.NewCipher(") && blockLen(ctr.Call.Args[1]) == 16
-			c.Check(okCtr, R, "security.NEA2:ctr", fn.Pos(), "AES-CTR with the 16-octet counter block T1", "NEA2 must run AES in CTR mode from the 16-octet counter block")
-			xor := false
-			for _, ci := range core.Calls(fn) {
-				if core.CalleeName(ci.Common()) == "invoke:(crypto/cipher.Stream).XORKeyStream" {
-					a := ci.Common().Args
-					if p.Path(a[1]) == "p4" && p.Path(a[0]) == "makeslice(call:builtin.len(p4))" && retIs(fn, p, p.Path(a[0])) {
-						xor = true
-					}
-				}
-			}
-			c.Check(xor, R, "security.NEA2:whole-message", fn.Pos(), "XORKeyStream(obs[len(ibs)], ibs) and obs returned", "NEA2 must XOR the keystream over the whole input into an output of the same length and return it")
-			keyOK := ctr != nil && strings.HasPrefix(p.Path(ctr.Call.Args[0]), "call:crypto/aes.NewCipher(p0")
-			c.Check(keyOK, R, "security.NEA2:key", fn.Pos(), "AES key = the 16-octet key argument", "NEA2 must key AES with its key argument")
-		} else {
-			sum := onlyCall(c, R, fn, "github.com/aead/cmac.Sum")
-			if sum != nil {
-				m := p.Path(sum.Call.Args[0])
-				tag, okT := core.ConstInt(sum.Call.Args[2])
-				okM := m == blk && m == "makeslice((call:builtin.len(p4)+8))"
-				cp := false
-				for _, ci := range core.Calls(fn) {
-					if core.CalleeName(ci.Common()) == "builtin.copy" && p.Path(ci.Common().Args[0]) == blk+"[8:]" && p.Path(ci.Common().Args[1]) == "p4" && core.Dominates(ci, sum) {
-						cp = true
-					}
-				}
-				trunc := false
-				for _, b := range fn.Blocks {
-					for _, in := range b.Instrs {
-						if r, ok := in.(*ssa.Return); ok && len(r.Results) == 2 {
-							if s := p.Path(r.Results[0]); strings.HasPrefix(s, "call:github.com/aead/cmac.Sum(") && strings.HasSuffix(s, "#0[:4]") {
-								trunc = true
-							}
-						}
-					}
-				}
-				c.Check(okM && cp && okT && tag == 16 && trunc, R, "security.NIA2:cmac", sum.Pos(), "CMAC over COUNT||BEARER||DIR||0^26 || message, leftmost 32 bits",
-					"NIA2 must be AES-CMAC over the 8-octet header followed by the message, truncated to the 4 most significant octets (input %s, copied=%v, tag=%d, truncated=%v)", m, cp, tag, trunc)
-			}
-		}
+		c.Check(xor, R, "security.NEA2:whole-message", fn.Pos(), "XORKeyStream(obs[len(ibs)], ibs) and obs returned", "NEA2 must XOR the keystream over the whole input into an output of the same length and return it")
 	}
 }
 
@@ -1054,6 +609,19 @@ func r7keywords(c *core.Ctx, R string, fn *ssa.Function, name string, initCall *
 	p := core.NewPather(fn)
 	ok := false
 	kArg := p.Path(initCall.Call.Args[0])
+	// the key words may be loaded by a helper of the package that is handed the key: analyse it instead
+	if hc, isCall := initCall.Call.Args[0].(*ssa.Call); isCall {
+		if callee := hc.Call.StaticCallee(); callee != nil && fnPkgPath(callee) == pSec && len(callee.Blocks) > 0 && len(hc.Call.Args) == 1 && p.Path(hc.Call.Args[0]) == "p0" {
+			if rv := singleReturnAny(callee); rv != nil {
+				fn = callee
+				p = core.NewPather(fn)
+				kArg = p.Path(rv)
+				if ld, isLd := rv.(*ssa.UnOp); isLd && ld.Op == token.MUL {
+					kArg = p.Path(ld.X)
+				}
+			}
+		}
+	}
 	for _, l := range loopBounds(fn) {
 		if !(l.initOK && l.init == 0 && l.step == 1 && l.op == token.LSS && l.limitOK && l.limit == 4) {
 			continue
@@ -1080,45 +648,151 @@ func r7keywords(c *core.Ctx, R string, fn *ssa.Function, name string, initCall *
 	c.Check(ok, R, "security."+name+":key-words", fn.Pos(), "k[i] = big-endian word 3-i of the key (k3 = first four octets)", "%s must load k[i] from key octets 4*(3-i)..4*(3-i)+3 big-endian (TS 35.215: k3 = CK[0..31])", name)
 }
 
-// NEA1 keystream application: full words then the remaining octets; mask guarded.
+// NEA1 keystream application. Semantically: output octet e is input octet e xor octet
+// (e mod 4, most significant first) of keystream word e div 4, for e = 0 .. ceil(LENGTH/8)-1.
+// Two spellings are decided: (A) words i with an inner octet loop j, e = 4i+j, plus a tail
+// of ceil(r/8) octets of word LENGTH/32; (B) one octet loop e with word e/4 and shift
+// 8*(3 - e%4). The octet range is checked for every residue of LENGTH mod 32.
 func r7nea1apply(c *core.Ctx, R string, fn *ssa.Function) {
 	p := core.NewPather(fn)
-	var stores []string
+	type app struct {
+		st         *ssa.Store
+		e, e2, w   ssa.Value
+		shift      ssa.Value
+		recognised bool
+	}
+	var apps []app
+	isObs := func(v ssa.Value) bool { return strings.HasPrefix(p.Path(v), "makeslice(call:builtin.len(p4))") }
 	for _, b := range fn.Blocks {
 		for _, in := range b.Instrs {
-			if st, ok := in.(*ssa.Store); ok {
-				ap := p.Path(st.Addr)
-				if strings.HasPrefix(ap, "makeslice(call:builtin.len(p4))[") {
-					stores = append(stores, ap+" := "+p.Path(st.Val))
+			st, ok := in.(*ssa.Store)
+			if !ok {
+				continue
+			}
+			ia, isIA := st.Addr.(*ssa.IndexAddr)
+			if !isIA || !isObs(ia.X) {
+				continue
+			}
+			a := app{st: st, e: ia.Index}
+			// value: ibs[e2] ^ byte(ks[w] >> shift [& 0xff])
+			if x, isX := st.Val.(*ssa.BinOp); isX && x.Op == token.XOR {
+				for _, pair := range [][2]ssa.Value{{x.X, x.Y}, {x.Y, x.X}} {
+					ld, isLd := pair[0].(*ssa.UnOp)
+					if !isLd || ld.Op != token.MUL {
+						continue
+					}
+					ia2, isIA2 := ld.X.(*ssa.IndexAddr)
+					if !isIA2 || p.Path(ia2.X) != "p4" {
+						continue
+					}
+					ks := stripConv(pair[1])
+					if and, isAnd := ks.(*ssa.BinOp); isAnd && and.Op == token.AND {
+						if k, isK := core.ConstInt(and.Y); isK && k == 255 {
+							ks = stripConv(and.X)
+						}
+					}
+					shr, isShr := ks.(*ssa.BinOp)
+					if !isShr || shr.Op != token.SHR {
+						continue
+					}
+					wl, isWl := stripConv(shr.X).(*ssa.UnOp)
+					if !isWl || wl.Op != token.MUL {
+						continue
+					}
+					wia, isWia := wl.X.(*ssa.IndexAddr)
+					if !isWia || !strings.HasPrefix(p.Path(wia.X), "makeslice(((p5+31)/32))") {
+						continue
+					}
+					a.e2, a.w, a.shift, a.recognised = ia2.Index, wia.Index, shr.Y, true
 				}
 			}
+			apps = append(apps, a)
 		}
 	}
-	good := 0
-	for _, s := range stores {
-		// obs[4*i+j] = ibs[4*i+j] ^ byte(ks[i] >> (8*(3-j)))
-		var i1, j1 string
-		if n, _ := fmt.Sscanf(strings.NewReplacer("(", " ", ")", " ", "[", " ", "]", " ", "*", " ", "+", " ").Replace(s), "makeslice call:builtin.len p4    4 %s   %s", &i1, &j1); n == 2 {
-			want := fmt.Sprintf("makeslice(call:builtin.len(p4))[((4*%s)+%s)] := (p4[((4*%s)+%s)]^((makeslice(((p5+31)/32))[%s]>>(8*(3-%s)))&255))", i1, j1, i1, j1, i1, j1)
-			want2 := fmt.Sprintf("makeslice(call:builtin.len(p4))[((4*%s)+%s)] := (p4[((4*%s)+%s)]^(makeslice(((p5+31)/32))[%s]>>(8*(3-%s))))", i1, j1, i1, j1, i1, j1)
-			if s == want || s == want2 {
-				good++
+	loops := loopBounds(fn)
+	loopOf := func(v ssa.Value) *loopInfo {
+		for i := range loops {
+			if ssa.Value(loops[i].phi) == stripConv(v) {
+				return &loops[i]
 			}
 		}
+		return nil
 	}
-	lb := loopBounds(fn)
-	full, tail := false, false
-	for _, l := range lb {
-		if l.limitPath == "(p5/32)" && l.initOK && l.init == 0 && l.step == 1 && l.op == token.LSS {
-			full = true
+	formA, formB := 0, 0
+	bad := ""
+	var bLimit ssa.Value
+	for _, a := range apps {
+		if !a.recognised {
+			bad = "an output octet is not input octet xor keystream octet: " + clip(p.Path(a.st.Val))
+			continue
 		}
-		if l.limitPath == "(((p5%32)+7)/8)" && l.initOK && l.init == 0 && l.step == 1 && l.op == token.LSS {
-			tail = true
+		if p.Path(a.e) != p.Path(a.e2) {
+			bad = fmt.Sprintf("output octet %s is computed from input octet %s", clip(p.Path(a.e)), clip(p.Path(a.e2)))
+			continue
+		}
+		e, w, sh := p.Path(a.e), p.Path(a.w), p.Path(a.shift)
+		lf := core.Linearize(p, a.e)
+		switch {
+		case lf.C == 0 && len(lf.T) == 2 && lf.T[w] == 4:
+			// form A: e = 4*w + j
+			j := ""
+			for t, k := range lf.T {
+				if t != w && k == 1 {
+					j = t
+				}
+			}
+			if j != "" && sh == "(8*(3-"+j+"))" {
+				formA++
+			} else {
+				bad = fmt.Sprintf("octet %s of word %s is shifted by %s, want 8*(3-j) with e = 4*word + j", e, w, sh)
+			}
+		case w == "("+e+"/4)" && (sh == "(8*(3-("+e+"%4)))" || sh == "(8*(3-("+e+"&3)))" || sh == "(24-(8*("+e+"%4)))"):
+			formB++
+			if l := loopOf(a.e); l != nil && l.initOK && l.init == 0 && l.step == 1 && l.op == token.LSS {
+				if iff, ok := l.header.Instrs[len(l.header.Instrs)-1].(*ssa.If); ok {
+					if bo, ok := iff.Cond.(*ssa.BinOp); ok {
+						bLimit = bo.Y
+					}
+				}
+			}
+		default:
+			bad = fmt.Sprintf("output octet %s takes keystream word %s shifted by %s: want word e/4, shift 8*(3 - e mod 4)", clip(e), clip(w), clip(sh))
 		}
 	}
-	c.Check(good == len(stores) && good >= 2 && full && tail, R, "security.NEA1:keystream-application", fn.Pos(),
-		"obs[4i+j] = ibs[4i+j] ^ byte j of ks[i] for all full words and ceil(r/8) octets of the last word",
-		"NEA1 must XOR octet j of keystream word i onto octet 4i+j for every full word and for the ceil(r/8) remaining octets (recognised %d of %d output stores; full-word loop %v, tail loop %v)", good, len(stores), full, tail)
+	okCover := false
+	coverWhy := ""
+	switch {
+	case formA >= 2 && formB == 0:
+		full, tail := false, false
+		for _, l := range loops {
+			if l.limitPath == "(p5/32)" && l.initOK && l.init == 0 && l.step == 1 && l.op == token.LSS {
+				full = true
+			}
+			if l.limitPath == "(((p5%32)+7)/8)" && l.initOK && l.init == 0 && l.step == 1 && l.op == token.LSS {
+				tail = true
+			}
+		}
+		okCover = full && tail
+		coverWhy = fmt.Sprintf("full-word loop %v, tail loop %v", full, tail)
+	case formB >= 1 && formA == 0 && bLimit != nil:
+		okCover = true
+		for r := int64(0); r < 32 && okCover; r++ {
+			lfm := evalResidue(p, bLimit, "p5", 32, r, 0)
+			if !lfm.ok || lfm.a != 4 || lfm.b != (r+7)/8 {
+				okCover = false
+				coverWhy = fmt.Sprintf("LENGTH = 32q+%d: the loop covers %dq%+d octets (%s), want 4q%+d", r, lfm.a, lfm.b, clip(p.Path(bLimit)), (r+7)/8)
+			}
+		}
+	default:
+		coverWhy = fmt.Sprintf("%d word/octet-loop stores, %d single-loop stores", formA, formB)
+	}
+	if len(apps) == 0 {
+		c.SoftUndecided("NEA1: no store into the output buffer found (keystream application moved elsewhere)")
+		return
+	}
+	c.Check(bad == "" && okCover, R, "security.NEA1:keystream-application", fn.Pos(),
+		"obs[e] = ibs[e] ^ octet (e mod 4) of ks[e div 4] for e < ceil(LENGTH/8)",
+		"NEA1 must XOR octet e mod 4 (most significant first) of keystream word e div 4 onto octet e, for every e below ceil(LENGTH/8): %s %s", bad, coverWhy)
 }
 
 // NIA1: P, Q from z1..z4, message blocks, length block, MAC = top half ^ z5
@@ -1163,88 +837,7 @@ func r7dispatch(c *core.Ctx) {
 		v := mustConst(c, pSec, kv[0])
 		c.Check(fmt.Sprint(v) == kv[1], R, "security."+kv[0], token.NoPos, "="+kv[1], "%s must be %s (TS 33.501 5.11.1), is %d", kv[0], kv[1], v)
 	}
-	{
-		fn := mustFunc(c, pSec, "NASEncrypt")
-		p := core.NewPather(fn)
-		// for each call NEA1/NEA2: the block is reached under AlgoID == k
-		for _, t := range []struct {
-			callee string
-			id     int64
-			args   string
-		}{{"NEA1", 1, "p1,p2,p3,p4,p5,(call:builtin.len(p5)*8)"}, {"NEA2", 2, "p1,p2,p3,p4,p5"}} {
-			call := onlyCall(c, R, fn, pSec+"."+t.callee)
-			if call == nil {
-				continue
-			}
-			ids := guardingEq(p, call.Block(), "p0")
-			okG := len(ids) == 1 && ids[0] == t.id
-			var as []string
-			for _, a := range call.Call.Args {
-				as = append(as, p.Path(a))
-			}
-			got := strings.Join(as, ",")
-			c.Check(okG, R, "security.NASEncrypt:"+t.callee+":selected-by", call.Pos(), fmt.Sprintf("AlgoID == %d", t.id), "%s must run exactly for algorithm id %d, runs for %v", t.callee, t.id, ids)
-			c.Check(got == t.args, R, "security.NASEncrypt:"+t.callee+":args", call.Pos(), got, "%s arguments are (%s), want (%s)", t.callee, got, t.args)
-			// copy(payload, output) after
-			cp := false
-			for _, ci := range core.Calls(fn) {
-				if core.CalleeName(ci.Common()) == "builtin.copy" && p.Path(ci.Common().Args[0]) == "p5" && p.Path(ci.Common().Args[1]) == p.Path(call)+"#0" && core.Dominates(call, ci) {
-					cp = true
-				}
-			}
-			c.Check(cp, R, "security.NASEncrypt:"+t.callee+":in-place", call.Pos(), "copy(payload, output)", "the %s output must be copied back over the payload", t.callee)
-		}
-		// NEA0: a return nil reached under AlgoID == 0 without any store/copy to payload
-		ok0 := false
-		for _, b := range fn.Blocks {
-			ids := guardingEq(p, b, "p0")
-			if len(ids) == 1 && ids[0] == 0 {
-				clean := true
-				ret := false
-				for _, in := range b.Instrs {
-					switch x := in.(type) {
-					case *ssa.Call:
-						n := core.CalleeName(&x.Call)
-						if n == "builtin.copy" || strings.HasPrefix(n, pSec+".NEA") {
-							clean = false
-						}
-					case *ssa.Store:
-						clean = false
-					case *ssa.Return:
-						if k, isK := x.Results[0].(*ssa.Const); isK && k.Value == nil {
-							ret = true
-						}
-					}
-				}
-				if clean && ret {
-					ok0 = true
-				}
-			}
-		}
-		c.Check(ok0, R, "security.NASEncrypt:NEA0", fn.Pos(), "algorithm 0 returns nil without touching the payload", "NEA0 must leave the message unchanged and succeed")
-	}
-	{
-		fn := mustFunc(c, pSec, "NASMacCalculate")
-		p := core.NewPather(fn)
-		for _, t := range []struct {
-			callee string
-			id     int64
-			args   string
-		}{{"NIA1", 1, "p1,p2,p3,p4,p5,(call:builtin.len(p5)*8)"}, {"NIA2", 2, "p1,p2,p3,p4,p5"}} {
-			call := onlyCall(c, R, fn, pSec+"."+t.callee)
-			if call == nil {
-				continue
-			}
-			ids := guardingEq(p, call.Block(), "p0")
-			var as []string
-			for _, a := range call.Call.Args {
-				as = append(as, p.Path(a))
-			}
-			got := strings.Join(as, ",")
-			c.Check(len(ids) == 1 && ids[0] == t.id, R, "security.NASMacCalculate:"+t.callee+":selected-by", call.Pos(), fmt.Sprintf("AlgoID == %d", t.id), "%s must run exactly for algorithm id %d, runs for %v", t.callee, t.id, ids)
-			c.Check(got == t.args, R, "security.NASMacCalculate:"+t.callee+":args", call.Pos(), got, "%s arguments are (%s), want (%s)", t.callee, got, t.args)
-		}
-	}
+	r7dispatchX(c, R)
 }
 
 // guardingEq returns the constants k such that block b is only reachable through
@@ -1579,152 +1172,13 @@ func r7nia1horner(c *core.Ctx, fn *ssa.Function, p *core.Pather) {
 func r7gf64(c *core.Ctx) {
 	const R = "R7.gf64"
 	c.Rule(R, "security.mulx / mulxPow / mul: MULx tests bit 63, MUL xors MULxPOW(V,i,c) for exactly the set bits i = 0..63 of P")
-	top := "9223372036854775808"
-	{
-		fn := mustFunc(c, pSec, "mulx")
-		p := core.NewPather(fn)
-		ok := false
-		if len(fn.Blocks) >= 3 {
-			if iff, isIf := fn.Blocks[0].Instrs[len(fn.Blocks[0].Instrs)-1].(*ssa.If); isIf {
-				cond := p.Path(iff.Cond)
-				t, e := retPath(p, fn.Blocks[0].Succs[0]), retPath(p, fn.Blocks[0].Succs[1])
-				sh := func(s string) bool { return s == "((p0<<1)^p1)" || s == "(p1^(p0<<1))" }
-				if (cond == "((p0&"+top+")!=0)" || cond == "((p0>>63)!=0)" || cond == "((p0>>63)==1)") && sh(t) && e == "(p0<<1)" {
-					ok = true
-				}
-				if (cond == "((p0&"+top+")==0)" || cond == "((p0>>63)==0)") && sh(e) && t == "(p0<<1)" {
-					ok = true
-				}
-			}
+	r7mulx(c, R, pSec, "security.mulx", 64)
+	if powFn := c.P.Func(pSec, "mulxPow"); powFn != nil && len(powFn.Blocks) > 0 {
+		var exps []int
+		for i := 0; i < 64; i++ {
+			exps = append(exps, i)
 		}
-		c.Check(ok, R, "security.mulx", fn.Pos(), "V bit 63 ? (V<<1)^c : V<<1", "MULx over 64 bits must be (V<<1)^c when bit 63 of V is set and V<<1 otherwise")
+		r7mulxPowAt(c, R, pSec, "security.mulxPow", 64, exps)
 	}
-	powFn := c.P.Func(pSec, "mulxPow")
-	if powFn != nil && len(powFn.Blocks) > 0 {
-		p := core.NewPather(powFn)
-		ok := false
-		if len(powFn.Blocks) >= 3 {
-			if iff, isIf := powFn.Blocks[0].Instrs[len(powFn.Blocks[0].Instrs)-1].(*ssa.If); isIf {
-				cond := p.Path(iff.Cond)
-				t, e := retPath(p, powFn.Blocks[0].Succs[0]), retPath(p, powFn.Blocks[0].Succs[1])
-				rec := "call:" + pSec + ".mulx(call:" + pSec + ".mulxPow(p0,(p1-1),p2),p2)"
-				if cond == "(p1==0)" && t == "p0" && e == rec {
-					ok = true
-				}
-				if cond == "(p1!=0)" && e == "p0" && t == rec {
-					ok = true
-				}
-			}
-		}
-		c.Check(ok, R, "security.mulxPow", powFn.Pos(), "i==0 ? V : MULx(MULxPOW(V,i-1,c),c)", "MULxPOW must be the i-fold application of MULx")
-	}
-	fn := mustFunc(c, pSec, "mul")
-	p := core.NewPather(fn)
-	loops := allLoopPhis(fn)
-	// result: returned value is the loop-carried accumulator that starts at 0
-	ret := singleReturnAny(fn)
-	var acc *loopInfoX
-	for i := range loops {
-		if ret != nil && (ssa.Value(loops[i].phi) == ret) {
-			acc = &loops[i]
-		}
-	}
-	if acc == nil {
-		c.SoftUndecided("security.mul: result is not a loop-carried accumulator")
-		return
-	}
-	if k, isK := core.ConstInt(acc.init); !isK || k != 0 {
-		c.Fail(R, "security.mul:init", fn.Pos(), "the product accumulator must start at 0")
-		return
-	}
-	// alternatives of the accumulator's back edge with the condition selecting them
-	var upd ssa.Value
-	var updCond string
-	okAlts := true
-	for _, e := range acc.backEdges {
-		ph, isPhi := e.(*ssa.Phi)
-		if !isPhi {
-			okAlts = false
-			continue
-		}
-		for i, a := range ph.Edges {
-			if a == ssa.Value(acc.phi) {
-				continue
-			}
-			upd = a
-			pred := ph.Block().Preds[i]
-			// the block computing the update is entered on the true side of the bit test
-			for x := pred; x != nil; x = x.Idom() {
-				id := x.Idom()
-				if id == nil {
-					break
-				}
-				if iff, isIf := id.Instrs[len(id.Instrs)-1].(*ssa.If); isIf && len(x.Preds) == 1 && id.Succs[0] == x {
-					updCond = p.Path(iff.Cond)
-					break
-				}
-			}
-		}
-	}
-	if upd == nil || !okAlts {
-		c.SoftUndecided("security.mul: accumulator update not in the form `if bit { rst ^= term }`")
-		return
-	}
-	x, isXor := upd.(*ssa.BinOp)
-	if !isXor || x.Op != token.XOR {
-		c.Fail(R, "security.mul:update", fn.Pos(), "partial products must be combined by XOR (addition in GF(2)); the update is %s", clip(p.Path(upd)))
-		return
-	}
-	term := x.Y
-	if x.Y == ssa.Value(acc.phi) {
-		term = x.X
-	}
-	accN := p.Path(acc.phi)
-	// indexed form
-	for _, l := range loopBounds(fn) {
-		iv := p.Path(l.phi)
-		if l.initOK && l.init == 0 && l.step == 1 {
-			full := l.limitOK && ((l.op == token.LSS && l.limit == 64) || (l.op == token.LEQ && l.limit == 63))
-			okBit := updCond == "(((p1>>"+iv+")&1)==1)" || updCond == "(((p1>>"+iv+")&1)!=0)"
-			okTerm := p.Path(term) == "call:"+pSec+".mulxPow(p0,"+iv+",p2)"
-			c.Check(full && okBit && okTerm, R, "security.mul:indexed", fn.Pos(), "for i in 0..63: bit i of P ⇒ rst ^= MULxPOW(V,i,c)",
-				"MUL must xor MULxPOW(V,i,c) into the result for exactly the set bits i = 0..63 of P; loop covers 0..%d (op %s), bit test %s, term %s", l.limit, l.op, updCond, clip(p.Path(term)))
-			return
-		}
-	}
-	// iterative form: V' = mulx(V,c) and P' = P>>1 on every way round, bit 0 of the running P selects the running V
-	var vPhi, pPhi *loopInfoX
-	for i := range loops {
-		l := &loops[i]
-		if l.phi == acc.phi {
-			continue
-		}
-		switch p.Path(l.init) {
-		case "p0":
-			vPhi = l
-		case "p1":
-			pPhi = l
-		}
-	}
-	if vPhi == nil || pPhi == nil {
-		c.SoftUndecided("security.mul: neither the indexed nor the iterative form of the GF(2^64) product (accumulator %s)", accN)
-		return
-	}
-	okV, okP := len(vPhi.backEdges) > 0, len(pPhi.backEdges) > 0
-	for _, e := range vPhi.backEdges {
-		if p.Path(e) != "call:"+pSec+".mulx("+p.Path(vPhi.phi)+",p2)" {
-			okV = false
-		}
-	}
-	for _, e := range pPhi.backEdges {
-		if p.Path(e) != "("+p.Path(pPhi.phi)+">>1)" {
-			okP = false
-		}
-	}
-	pn := p.Path(pPhi.phi)
-	okBit := updCond == "(("+pn+"&1)==1)" || updCond == "(("+pn+"&1)!=0)"
-	okTerm := term == ssa.Value(vPhi.phi)
-	okExit := p.Path(acc.cond) == "("+pn+"!=0)" || p.Path(pPhi.cond) == "("+pn+"!=0)"
-	c.Check(okV && okP && okBit && okTerm && okExit, R, "security.mul:iterative", fn.Pos(), "while P != 0: bit 0 of P ⇒ rst ^= V; V = MULx(V,c); P >>= 1",
-		"iterative MUL must, on every round, xor the running V into the result when bit 0 of the running P is set, then replace V by MULx(V,c) and shift P right by one, until P is 0 (V update %v, P update %v, bit test %s, term is running V %v, exit on P==0 %v)", okV, okP, updCond, okTerm, okExit)
+	r7mul64(c, R)
 }
